@@ -589,6 +589,16 @@ def w_nary(case, led):
     r = OpSum.product([])
     led.check(isinstance(r, OpSum) and len(r) == 0, "post:OpSum.product:empty", "OpSum.product", f"OpSum.product([]) = {r!r}, expected the empty sum",
               (uname, "nary-empty"), {}, {"expr": "OpSum.product([])"}, False)
+    for v in [x for x in pool if not x.is_op][:6]:
+        # a product of ONE operator sum is still a new list: extending it in place must not reach the factor
+        sa = A.vsig(v.val)
+        r = OpSum.product([v.val])
+        fresh = r is not v.val
+        if fresh and isinstance(r, list):
+            r += list(v.val[:1]) or [leaves(uni)[0].val]
+            fresh = A.vsig(v.val) == sa
+        led.check(fresh, "post:OpSum.product:result_is_a_new_object", "OpSum.product", f"OpSum.product([{v.src}]) returns its only factor: extending the result in place changes the factor",
+                  (uname, "nary-1-fresh", v.src), {"nary": 1}, {"universe": uname, "expr": f"p = OpSum.product([{v.src}]); p += [...]", "how": SETUP})
     for v in pool[:8]:
         r = OpSum.product([v.val])
         led.check(uni.den(r).same(v.den(uni)), "post:OpSum.product:den_nary", "OpSum.product", f"OpSum.product([{v.src}]) changed the value",
@@ -1033,6 +1043,8 @@ def worker(case, led):
 
 def check(run):
     tier, seed = run.tier, run.seed
+    from props import C15_effects
+    C15_effects.prove(run)
     cases = []
     sizes = {}
     for u in UNIVERSES:
